@@ -306,7 +306,10 @@ class History:
                 self.note(f"restore {type(h).__name__} from its backup")
                 return
             elif op == "set_adaptive":
-                h.set_adaptive(True)  # from now on fills may grow the bins of this object (and of nothing else)
+                if rng.random() < 0.5:
+                    h.set_adaptive(True)  # from now on fills may grow the bins of this object (and of nothing else)
+                else:
+                    h.adaptive = True  # (the property spelling of the same switch)
                 try:
                     with attach.quiet():
                         h.copy()
@@ -380,6 +383,12 @@ class History:
                         gen.touch_binning(rng, b, p=0.8)
                     try:
                         repr(h), str(h.binnings[0])
+                    except Exception:
+                        pass
+                    try:
+                        # the contents as an array (np.asarray(h)): a reader. It is the histogram's own array - as h.frequencies is;
+                        # writing into it is the caller's own doing and no operation of the library (see DESIGN, rounds 6 and 7)
+                        _ = np.asarray(h), h.adaptive, len(h.bins), list(h.axis_names)
                     except Exception:
                         pass
                 with quiet():
